@@ -1238,6 +1238,10 @@ class Interp:
         e = self.eid((id(s), fr.inv), f"{fr.fi.relpath}:{s.lineno}")
         self.loop_eids.add(e)
         ex = self.early_exit(s)
+        if isinstance(ex, ast.Return) and ex.value is not None and isinstance(s.iter, ast.Name) and any(isinstance(n, ast.Name) and n.id == s.iter.id for n in ast.walk(ex.value)):
+            # `for first in it: return f(chain([first], it))`: the first element is peeked at, the rest of the very same iterator is
+            # handed on in the returned value - nothing is left behind
+            ex = None
         head = dict(env)
         brk = None
         itv = None
@@ -2268,6 +2272,12 @@ class Interp:
         if isinstance(sh, Ref) and sh.kind == "obj":
             c = self.cell(sh)
             m = self.find_method(c.ci, name) if c.ci is not None else None
+            if m is not None and (m.is_property or any(d.rsplit(".", 1)[-1] == "cached_property" for d in m.decorators)):
+                # `obj.prop(args)`: the property's value is what is called
+                out = set()
+                for f in self.attr(V(sh), name, call, env, fr):
+                    out |= self.apply(f, args, kwargs, call, env, fr)
+                return frozenset(out)
             if m is not None:
                 if m.is_staticmethod:
                     return self.call_fn(m, None, args, kwargs, call, fr, caller_env=env)
